@@ -126,8 +126,8 @@ def nontrivial(result):
 
 
 # ---------------------------------------------------------------- the check
-def run(prop, tier, replay=None):
-    rep = Report(prop, tier, "model_checking")
+def run(prop, tier, replay=None, rep=None, finish=True):
+    rep = rep or Report(prop, tier, "model_checking")
     rep.assumptions += [
         "E1: helper threads, job processes and the main thread are scheduled by the engine; loop callbacks run in "
         "FIFO order as in asyncio; job processes follow the TaskRunner protocol as simulated by the engine "
@@ -206,13 +206,13 @@ def run(prop, tier, replay=None):
                                 "generated": stats["generated"], "wall_s": round(stats["tlc_wall"], 1)})
     rep.cov["systematic"] = exhaustive
     judge(rep, prop, results, verdicts, labels)
-    rep.cov["rule"] = (
+    rep.cov["rule"] += (
         "executions of the real scheduler under E1 (random schedules with VERIF_SEED + state-deduplicated systematic "
         "enumeration for the plans under 'systematic'); distinct = distinct choice sequences; non-trivial = the "
         "execution contains an aborted start, a failing process, a duplicate submission, a scheduler death or more "
         "than 8 helper-thread completions"
     )
-    return rep.finish()
+    return rep.finish() if finish else rep
 
 
 def judge(rep, prop, results, verdicts, labels):
